@@ -89,7 +89,7 @@ class Oracle:
         return self.dsets.get(tok)
 
     def operand(self, tok, like):
-        if tok.startswith("n:"):
+        if tok.startswith(("n:", "I:", "F:")):
             c = pnum(tok[2:])
             return Ref(list(like.dims), {lab: c for lab in like.labels()})
         return self.arrs.get(tok)
@@ -137,6 +137,9 @@ class Oracle:
         if op == "dump":
             x = self.arrs.get(t[1])
             return ("arr", x) if x is not None else None
+        if op == "sarr":
+            t = ["arr"] + t[2:]
+            op = "arr"
         if op in ("arr", "iarr"):
             getattr(self, "nds", {}).pop(t[1], None)
             ds = self.dsets.get(t[2])
